@@ -1,5 +1,6 @@
 import IcyVerif.Lemmas.BinFormatsIdf
 import IcyVerif.Lemmas.BinFormatsAdf
+import IcyVerif.Lemmas.SauceExtract
 set_option linter.unusedSimpArgs false
 /-! C16, whole files: what the round-trip theorems of the C05 whole-file model say about the PALETTE. -/
 namespace IcyVerif.BinFormats
@@ -41,8 +42,18 @@ theorem writeSauce_prefix (k : SauceKind) (p : Pic) (date body bytes : List Nat)
   · exact absurd h (by simp)
   · split at h
     · exact absurd h (by simp)
-    · injection h with h
-      exact ⟨_, by rw [← h]; simp only [List.append_assoc]; rfl⟩
+    · -- `write_sauce_info` (C11's `Sauce.writeSauceInfo` since the merge of the C05 work package): body, EOF, comments, record
+      split at h
+      · rename_i bs hw
+        injection h with h
+        subst h
+        simp only [Sauce.writeSauceInfo] at hw
+        obtain ⟨tail, _, h2⟩ := Sauce.bind_eq_ok hw
+        have := (Sauce.Res.ok.inj h2).symm
+        subst this
+        exact ⟨[Gen.Sauce.eofByte] ++ tail, by simp [List.append_assoc]⟩
+      · cases h
+      · cases h
 
 theorem sauce_or_plain (sauce : Bool) (k : SauceKind) (p : Pic) (date body bytes : List Nat)
     (h : (if sauce = true then writeSauce k p date body else Out.ok body) = .ok bytes) : ∃ tail, bytes = body ++ tail := by
@@ -146,7 +157,32 @@ theorem ite_panic_ok {α : Type} {c : Prop} [Decidable c] {b : Out α} {g : α} 
   · rw [if_pos hc] at h; exact absurd h (by simp)
   · rw [if_neg hc] at h; exact ⟨hc, h⟩
 
-theorem xb_loader_palette (data : List Nat) (s : Option Sauce) (g : LBuf) (h : xbLoad data s = .ok g) :
+theorem xbBlocks_pal (b1 : LBuf) (hasPal hasFont ext : Bool) (fs : Nat) (rest : List Nat) (r : LBuf × List Nat)
+    (h : xbBlocks b1 hasPal hasFont ext fs rest = .ok r) :
+    r.1.pal = if hasPal = true then from63 (rest.take Xb.paletteLength) else b1.pal := by
+  unfold xbBlocks at h
+  obtain ⟨_, h⟩ := ite_err_ok h
+  obtain ⟨_, h⟩ := ite_err_ok h
+  simp only [] at h
+  obtain ⟨_, h⟩ := ite_err_ok h
+  obtain ⟨_, h⟩ := ite_err_ok h
+  injection h with h
+  subst h
+  cases hasPal <;> cases hasFont <;> cases ext <;> rfl
+
+theorem xbImage_pal (b3 : LBuf) (w : Nat) (comp ice ext : Bool) (rest3 : List Nat) (g : LBuf)
+    (h : xbImage b3 w comp ice ext rest3 = .ok g) : g.pal = b3.pal := by
+  unfold xbImage at h
+  simp only [] at h
+  split at h
+  · cases h
+  · injection h with h
+    subst h
+    rw [crop_pal, placeAll_keeps_pal]
+
+/-- (merge note: re-proved along the new shape of `xbLoad` — header, `xbBlocks`, `xbImage`; the record is C11's
+    `Sauce.Sauce`; statement unchanged) -/
+theorem xb_loader_palette (data : List Nat) (s : Option Sauce.Sauce) (g : LBuf) (h : xbLoad data s = .ok g) :
     g.pal = if (data.getD 10 0 &&& Xb.flagPalette == Xb.flagPalette) = true
       then from63 ((data.drop 11).take Xb.paletteLength) else dosPalette := by
   obtain ⟨bw, lw, bh, lh, im, hst⟩ := xb_start s
@@ -155,40 +191,21 @@ theorem xb_loader_palette (data : List Nat) (s : Option Sauce) (g : LBuf) (h : x
   split at h
   · rename_i i0 i1 i2 i3 eof wl wh hl hh fs0 flags rest
     show g.pal = if (flags &&& Xb.flagPalette == Xb.flagPalette) = true then from63 (rest.take Xb.paletteLength) else dosPalette
-    extract_lets b0 w hgt fs hasPal hasFont comp ice ext b1 b2 rest2 flen b3 rest3 pairs at h
+    simp only [] at h
     obtain ⟨_, h⟩ := ite_err_ok h
     obtain ⟨_, h⟩ := ite_err_ok h
     obtain ⟨_, h⟩ := ite_err_ok h
-    obtain ⟨_, h⟩ := ite_panic_ok h
-    obtain ⟨_, h⟩ := ite_panic_ok h
-    obtain ⟨_, h⟩ := ite_panic_ok h
-    generalize hq : pairs = pp at h
-    cases pp with
-    | none => exact absurd h (by simp)
-    | some ps =>
-      dsimp only at h
-      injection h with h
-      subst h
-      rw [crop_pal, placeAll_keeps_pal]
-      show b3.pal = if hasPal = true then from63 (rest.take Xb.paletteLength) else dosPalette
-      have e3 : b3.pal = b2.pal := by
-        show (if hasFont = true then _ else b2).pal = b2.pal
-        by_cases hf : hasFont = true
-        · rw [if_pos hf]
-          by_cases he : ext = true
-          · rw [if_pos he]
-          · rw [if_neg he]
-        · rw [if_neg hf]
-      rw [e3]
-      show (if hasPal = true then _ else b1).pal = _
-      by_cases hp : hasPal = true
-      · rw [if_pos hp, if_pos hp]
-      · rw [if_neg hp, if_neg hp]
+    split at h
+    · rename_i b3 rest3 hb
+      rw [xbImage_pal _ _ _ _ _ _ _ h]
+      exact xbBlocks_pal _ _ _ _ _ _ _ hb
+    · cases h
+    · cases h
   · exact absurd h (by simp)
 
 /-- writer and loader together, for every picture the writer accepts (body without SAUCE record, whatever SAUCE information
     the loader is handed) -/
-theorem xb_any_palette (c : Bool) (date : List Nat) (p : Pic) (body : List Nat) (s : Option Sauce) (g : LBuf)
+theorem xb_any_palette (c : Bool) (date : List Nat) (p : Pic) (body : List Nat) (s : Option Sauce.Sauce) (g : LBuf)
     (hs : xbSave c false date p = .ok body) (hl : xbLoad body s = .ok g) :
     g.pal = if palIsDefault p.pal = true then dosPalette else from63 (asVec63 (fillTo16 p.pal)) := by
   obtain ⟨w1, w2⟩ := xb_writer_palette c false date p body hs
